@@ -160,6 +160,43 @@ func runC07(c *core.Ctx) {
 			}
 		}
 	})
+	// every message length up to and beyond the usual stack-buffer sizes (2 KiB, 4 KiB, 8 KiB), and around powers of two
+	{
+		maxSweep := 4300
+		if c.Thorough() {
+			maxSweep = 8400
+		}
+		var lens []int
+		for l := 0; l <= maxSweep; l++ {
+			lens = append(lens, l)
+		}
+		for k := 13; k <= 17; k++ {
+			for _, d := range []int{-65, -64, -33, -32, -1, 0, 1, 31, 32, 33, 64} {
+				lens = append(lens, 1<<uint(k)+d)
+			}
+		}
+		seed := bytes.Repeat([]byte{0x5E}, 32)
+		priv, std := ed25519.NewKeyFromSeed(seed), stded.NewKeyFromSeed(seed)
+		pub := priv.Public().(ed25519.PublicKey)
+		core.Par(len(lens), func(i int) {
+			l := lens[i]
+			msg := make([]byte, l)
+			for k := range msg {
+				msg[k] = byte(k*131 + l)
+			}
+			sig, want := ed25519.Sign(priv, msg), stded.Sign(std, msg)
+			c.Eval(1)
+			nontriv.Add(1)
+			if !bytes.Equal(sig, want) {
+				c.Violate("C07/length-sweep/sign-differs", fmt.Sprintf("%d-byte message: signature differs from crypto/ed25519", l), l, "", nil)
+			} else if !ed25519.Verify(pub, msg, sig) {
+				c.Violate("C07/length-sweep/verify-rejects-own", fmt.Sprintf("%d-byte message: Verify rejects the signature", l), l, "", nil)
+			}
+			if s2, err := priv.Sign(nil, msg, crypto.Hash(0)); err != nil || !bytes.Equal(s2, want) {
+				c.Violate("C07/length-sweep/signer-differs", fmt.Sprintf("%d-byte message: PrivateKey.Sign differs", l), l, "", nil)
+			}
+		})
+	}
 	c07Histories(c, &nontriv)
 	c07Aliasing(c, &nontriv)
 	c.Sample(map[string]interface{}{"seed": "00..00 with bit 37 set", "msg_len": 111, "contents": "ramp"})
